@@ -30,6 +30,9 @@ struct Walk<'a> {
     om: OpMon,
     seed_fen: String,
     ops: Vec<String>,
+    /// every operation executed on this game object so far, in order (never popped): what a replay must repeat
+    /// when the outcome depends on earlier operations that were taken back
+    trace: Vec<String>,
     /// reference positions along the current path (index 0 = seed)
     refs: Vec<Pos>,
     /// for C11: identities under the two tolerated en-passant conventions, and whether the move
@@ -49,7 +52,9 @@ fn ops_case(seed_fen: &str, ops: &[String], check: &str) -> J {
 impl<'a> Walk<'a> {
     fn vio(&self, kind: &str, detail: String) {
         let key = format!("{kind}|{} ops {}", self.seed_fen, self.ops.join(" "));
-        self.ctx.run.violation(kind, key, ops_case(&self.seed_fen, &self.ops, kind), detail);
+        // the replayable case is the complete operation trace where that is short enough, else the path from the root
+        let case_ops = if self.trace.len() <= 3000 { &self.trace } else { &self.ops };
+        self.ctx.run.violation(kind, key, ops_case(&self.seed_fen, case_ops, kind), detail);
     }
 
     fn check_node(&mut self, g: &Game) {
@@ -89,8 +94,28 @@ impl<'a> Walk<'a> {
                 );
             }
         }
+        if self.om.accum {
+            self.check_eval_path(g);
+        }
         if self.om.draws {
             self.check_draws(g, &r);
+        }
+    }
+
+    /// The static evaluation of the game object as it stands (after whatever operations led here) equals the
+    /// evaluation of the same position set up from its FEN text: no dependence on the path.
+    fn check_eval_path(&mut self, g: &Game) {
+        let here = catch(|| crate::engine::eval::eval(g));
+        let fresh = catch(|| crate::engine::eval::eval(&Game::from_fen(&g.to_fen()).unwrap()));
+        match (here, fresh) {
+            (Ok(a), Ok(b)) => {
+                bump(&mut self.c, "eval_path_checks");
+                if a != b {
+                    self.vio("eval-path-dependent", format!("eval of the game object = {a:?}, eval of the same position read from its FEN = {b:?}"));
+                }
+            }
+            (Err(e), Ok(_)) => self.vio("eval-path-dependent", format!("eval of the game object panics ({e}), eval of the same position read from its FEN does not")),
+            _ => {}
         }
     }
 
@@ -172,6 +197,11 @@ impl<'a> Walk<'a> {
                 pairs.push((em, *rm));
             }
         }
+        // the null move comes first (with its subtree) AND once more after the real moves (bare make / take back),
+        // so that both "null, take back, move" and "move, take back, null" happen on this one game object
+        if !self.null_block(g, &r, left, last_was_null, true) {
+            return;
+        }
         for (em, rm) in pairs {
             let before: Snapshot = mo::snapshot(g);
             self.edges += 1;
@@ -185,6 +215,7 @@ impl<'a> Walk<'a> {
                 bump(&mut self.c, "op_promotion");
             }
             self.ops.push(rm.uci());
+            self.trace.push(self.ops.last().unwrap().clone());
             if let Err(e) = catch(|| g.make_move(em)) {
                 self.vio("make-move-panic", e);
                 self.ops.pop();
@@ -196,11 +227,15 @@ impl<'a> Walk<'a> {
             self.rec(g, left - 1, false);
             self.pop_ref();
             self.ops.push("undo".into());
+            self.trace.push(self.ops.last().unwrap().clone());
             if let Err(e) = catch(|| g.undo_move()) {
                 self.vio("undo-move-panic", e);
                 return;
             }
             let after = mo::snapshot(g);
+            if self.om.accum {
+                self.check_eval_path(g);
+            }
             if after != before {
                 if self.om.rules {
                     self.vio("undo-not-exact", format!("take back of {} does not restore the game: {}", rm.uci(), mo::diff_snap(&before, &after)));
@@ -213,6 +248,11 @@ impl<'a> Walk<'a> {
             self.ops.pop();
             self.ops.pop();
         }
+        let _ = self.null_block(g, &r, left, last_was_null, false);
+    }
+
+    /// Null move, its subtree (only when `recurse`), take back. Returns false if the game object is no longer usable.
+    fn null_block(&mut self, g: &mut Game, r: &Pos, left: usize, last_was_null: bool, recurse: bool) -> bool {
         if self.om.nulls && !last_was_null && !r.in_check(r.side) {
             let before = mo::snapshot(g);
             self.edges += 1;
@@ -221,20 +261,25 @@ impl<'a> Walk<'a> {
                 bump(&mut self.c, "op_null_with_ep_target");
             }
             self.ops.push("null".into());
+            self.trace.push(self.ops.last().unwrap().clone());
             if let Err(e) = catch(|| g.make_null_move()) {
                 self.vio("null-move-panic", e);
                 self.ops.pop();
-                return;
+                return false;
             }
             self.push_ref(r.apply_null(), false);
-            self.rec(g, left - 1, true);
+            self.rec(g, if recurse { left - 1 } else { 0 }, true);
             self.pop_ref();
             self.ops.push("undo-null".into());
+            self.trace.push(self.ops.last().unwrap().clone());
             if let Err(e) = catch(|| g.undo_null_move()) {
                 self.vio("undo-null-panic", e);
-                return;
+                return false;
             }
             let after = mo::snapshot(g);
+            if self.om.accum {
+                self.check_eval_path(g);
+            }
             if after != before {
                 if self.om.rules {
                     self.vio("undo-null-not-exact", format!("take back of a null move does not restore the game: {}", mo::diff_snap(&before, &after)));
@@ -247,6 +292,7 @@ impl<'a> Walk<'a> {
             self.ops.pop();
             self.ops.pop();
         }
+        true
     }
 }
 
@@ -285,6 +331,7 @@ pub fn run_ops(ctx: &Ctx, om: OpMon, seeds: &[(String, Pos, usize)], total: &Mut
             om,
             seed_fen: if raw { format!("raw:{}", seed.to_fen_with_ep(seed.ep)) } else { seed.to_fen() },
             ops: vec![],
+            trace: vec![],
             refs: vec![],
             id_adj: vec![],
             id_legal: vec![],
@@ -332,6 +379,7 @@ impl<'a> Walk<'a> {
             let before = mo::snapshot(g);
             self.edges += 1;
             self.ops.push(rm.uci());
+            self.trace.push(self.ops.last().unwrap().clone());
             if let Err(e) = catch(|| g.make_move(em)) {
                 self.vio("make-move-panic", e);
                 return;
@@ -341,6 +389,7 @@ impl<'a> Walk<'a> {
             self.rec(g, left - 1, false);
             self.pop_ref();
             self.ops.push("undo".into());
+            self.trace.push(self.ops.last().unwrap().clone());
             if let Err(e) = catch(|| g.undo_move()) {
                 self.vio("undo-move-panic", e);
                 return;
@@ -359,6 +408,7 @@ impl<'a> Walk<'a> {
                 bump(&mut self.c, "op_null_with_ep_target");
             }
             self.ops.push("null".into());
+            self.trace.push(self.ops.last().unwrap().clone());
             if let Err(e) = catch(|| g.make_null_move()) {
                 self.vio("null-move-panic", e);
                 return;
@@ -367,6 +417,7 @@ impl<'a> Walk<'a> {
             self.rec(g, left - 1, true);
             self.pop_ref();
             self.ops.push("undo-null".into());
+            self.trace.push(self.ops.last().unwrap().clone());
             if let Err(e) = catch(|| g.undo_null_move()) {
                 self.vio("undo-null-panic", e);
                 return;
@@ -386,7 +437,7 @@ pub fn replay_ops(ctx: &Ctx, om: OpMon, seed_fen: &str, ops: &[String]) -> Resul
     let raw = seed_fen.starts_with("raw:");
     let seed = Pos::from_fen(seed_fen.trim_start_matches("raw:"))?;
     let mut g = if raw { Game::from_fen(seed_fen.trim_start_matches("raw:"))? } else { eng::to_game_with_ep(&seed, seed.ep) };
-    let mut w = Walk { ctx, om, seed_fen: seed_fen.to_string(), ops: vec![], refs: vec![], id_adj: vec![], id_legal: vec![], irreversible: vec![], c: Counts::new(), nodes: 0, edges: 0 };
+    let mut w = Walk { ctx, om, seed_fen: seed_fen.to_string(), ops: vec![], trace: vec![], refs: vec![], id_adj: vec![], id_legal: vec![], irreversible: vec![], c: Counts::new(), nodes: 0, edges: 0 };
     w.push_ref(seed.clone(), false);
     let mut snaps: Vec<Snapshot> = vec![];
     w.check_node(&g);
